@@ -189,6 +189,24 @@ WSum(u) ==
      s1 \in Steps1, s2 \in {<<1>>, <<2>>}, s3 \in {<<1>>, <<3>>}, o3 \in {0, 1}, u3 \in {"m", "km"},
      c3 \in {<<>>, <<Fix(1)>>}, sc \in {<<1>>, <<2>>}, ip \in BOOLEAN, two \in BOOLEAN, rev \in BOOLEAN}
 
+(* one output of a pull-based component read by two inputs of one consumer *)
+(* for different times (direct and delayed)                                *)
+PullTwice(u) ==
+  {c \in {MkCfg(<<TimeC(sp, 0, FALSE, <<>>), PullC(<<Lk(1, cw)>>), TimeC(sc, oc, FALSE, <<Lk(2, <<Fix(d)>>), Lk(2, c2)>>)>>,
+                ord, 7, "dag", "pulltwice") :
+            sp \in Steps1, sc \in StepSeqsS \cup {<<5>>}, oc \in {0, 1}, cw \in {<<>>, <<Pass>>},
+            d \in {1, 3}, c2 \in {<<>>, <<Pass>>}, ord \in Perms3} :
+     \* the delayed input is pulled first and the delay does not exceed the consumer's steps, so that
+     \* the requests arriving at the pull-based component's input stay monotone
+     \A k \in 1..Len(c.comps[3].steps) : c.comps[3].steps[k] >= c.comps[3].ins[1].chain[1].d}
+(* a delay-resolved ring whose delayed member has a further, undelayed input (tail) *)
+Ring2Tail(u) ==
+  {MkCfg(<<TimeC(sa, 0, FALSE, IF first THEN <<Lk(2, FixVar(da, va)), Lk(3, <<>>)>> ELSE <<Lk(3, <<>>), Lk(2, FixVar(da, va))>>),
+           TimeC(sb, 0, FALSE, <<Lk(1, <<>>)>>), TimeC(st, 0, FALSE, <<>>)>>,
+         ord, 7, RingZone(da, MaxStep(sa) + MaxStep(sb), da > 0), "ring2tail") :
+     sa \in Steps1, sb \in Steps1, st \in {<<1>>, <<2>>, <<5>>}, da \in {0, 2, 4, 6}, va \in 1..3, first \in BOOLEAN,
+     ord \in Perms3}
+
 (* cycles broken by dependency-breaking / pull-counting adapters *)
 RingBreak(u) ==
   {MkCfg(<<TimeC(sa, 0, FALSE, <<Lk(2, ca)>>), TimeC(sb, ob, FALSE, <<Lk(1, cb)>>)>>,
@@ -219,9 +237,11 @@ CfgSpace(f) ==
     [] f = "pullringtail" -> PullRingTail(0)
     [] f = "ringbreak"  -> RingBreak(0)
     [] f = "wsum"       -> WSum(0)
+    [] f = "pulltwice"  -> PullTwice(0)
+    [] f = "ring2tail"  -> Ring2Tail(0)
 
 AllFamilies == {"pair", "pairL", "pairXL", "pair3", "chain3t", "chain3p", "fanin2", "fanin1",
                 "fanout", "pullfanout", "diamondt", "diamondp", "pullchain2", "ring2", "ring3",
-                "ring4", "pullring", "pullringtail", "ringbreak", "wsum"}
+                "ring4", "pullring", "pullringtail", "ringbreak", "wsum", "pulltwice", "ring2tail"}
 
 =============================================================================
